@@ -229,8 +229,8 @@ func init() {
 			"streams come from ref/wsref's encoder and ref/rawdeflate / compress/flate deflaters, never from the library's writer",
 			"all 2^32 mask keys are covered by the lane-wise argument: each key byte acts only on its own lane, all 256 values of each lane x 4 start positions x 8 alignments x lengths 0..40 are enumerated (maskBytes family)",
 		},
-		Budget:    map[string]time.Duration{"quick": 100 * time.Second, "thorough": 25 * time.Minute},
-		Bound:     map[string]string{"quick": "<= 2 messages, <= 3 fragments, deviations <= 2", "thorough": "<= 3 messages, <= 4 fragments, deviations <= 3, all flate levels"},
+		Budget:    map[string]time.Duration{"quick": 100 * time.Second, "thorough": 40 * time.Minute},
+		Bound:     map[string]string{"quick": "<= 2 messages, <= 3 fragments, deviations <= 2", "thorough": "<= 3 messages, <= 4 fragments, all flate levels: deviations <= 2 over the whole product, <= 3 on a sub-lattice (first-message sizes 1 and 125, plain / hand-made DEFLATE / levels 0 and 1)"},
 		Scenarios: c03Scenarios,
 	})
 }
@@ -245,6 +245,12 @@ func c03Scenarios(tier string) []*explore.Scenario {
 		for _, ek := range encKinds(tier) {
 			for si := range c03Sizes {
 				readerIsServer, ek, si := readerIsServer, ek, si
+				bound := bound
+				if tier == "thorough" && !(si%3 == 1 && (ek.raw >= 0 || !ek.comp || ek.level == 1 || ek.level == 0)) {
+					// thorough: the whole product with the full value sets at deviation bound 2; bound 3
+					// on a sub-lattice (sizes 1 and 125, the quick encodings) so that the tier completes
+					bound = 2
+				}
 				scs = append(scs, &explore.Scenario{
 					Name:  fmt.Sprintf("c03/stream/reader=%s/enc=%s/size=%d", roleName(readerIsServer), ek.name, c03Sizes[si]),
 					Bound: bound,
@@ -315,6 +321,11 @@ func readStream(x *explore.Ctx, id string, g *genStream, stream []byte, readerIs
 		nc.Chunk = netsim.ChunkSplitAt(k)
 	} else if ch := chunkChoices[x.Choose(g.nchunk(), "chunking")]; ch > 0 {
 		nc.Chunk = netsim.ChunkFixed(ch)
+	}
+	if x.Choose(2, "eof-with-last-bytes") == 1 {
+		// the transport hands out the last bytes of the stream together with io.EOF (allowed by
+		// io.Reader): every message is complete, so every message must still be delivered
+		nc.LastWith = netsim.FailDataEOF
 	}
 	rbs := c03Rbs[x.Choose(len(c03Rbs), "ReadBufferSize")]
 	c := websocket.VerifNewConn(nc, readerIsServer, rbs, 150, nil, deflate)
